@@ -32,11 +32,12 @@ import (
 //
 // The handler specs of a case are parsed by the real ParseEventScript and run
 // by the real ScriptEventHandler / invokeEventScript (through /bin/sh -c).
-// The "script" is this test binary in helper mode (see main_test.go): it
-// dumps its environment and standard input to a file, prints a generated
-// amount of output and exits with a generated status. Queries are real
-// *serf.Query values taken from a Quiet loopback node, so Respond travels the
-// real path; the response packet is read from the harness network capture
+// The "script" is a self-describing helper (an inline shell snippet, or this
+// test binary in helper mode, see main_test.go and c27ShellScript): it dumps
+// its environment and standard input to files, prints a generated amount of
+// output and exits with a generated status. Queries are real *serf.Query
+// values taken from a Quiet loopback node, so Respond travels the real path;
+// the response packet is read from the harness network capture
 // (synchronously — no timing decides a verdict).
 
 type c27Member struct {
